@@ -314,10 +314,11 @@ prop(
     level="other",
     design_ref="DESIGN.md section 3, C19",
     groups=[(["./pipeline"], r"^\(\*Batch\)\.ForEach$"),
-            (["./plugin/output/elasticsearch"], r"^\(\*Plugin\)\.(sendSplit|appendIndexName|Start|Start\$1)$")],
+            (["./plugin/output/elasticsearch"], r"^\(\*Plugin\)\.(sendSplit|appendIndexName|Start|Start\$1)$"),
+            (["./plugin/output/http"], r"^\(\*Plugin\)\.sendSplit$")],
     known_canaries=[("./plugin/output/elasticsearch", "replay/C19/zz_replay_c19_test.go", "TestVerifReplayC19IndexName")],
     claim=(
-        "Proved: Batch.ForEach calls the callback for exactly the non-parent events, in index order (per-iteration obligation); Elasticsearch sendSplit, for every pattern of failing / 413 / successful requests (DoTimeout is an arbitrary environment), "
+        "Proved: Batch.ForEach calls the callback for exactly the non-parent events, in index order (per-iteration obligation); Elasticsearch sendSplit and the http output's sendSplit (split_batch), for every pattern of failing / 413 / successful requests (DoTimeout is an arbitrary environment), "
         "sends contiguous ranges data[begin[l]:begin[r]] so that on success the accepted prefix advances exactly from begin[left] to begin[right] - the resent parts tile the batch exactly once - and a single event that is still too large returns the error (recursive calls use the contract); "
         "the ES error callback forwards each event of a failed batch to Router.Fail exactly once in order, and the retry loop's dead-queue flag and retry count are the router's / the configured ones. "
         "KNOWN FINDING (open): appendIndexName splices the event's index field value into the action line unescaped."
@@ -407,7 +408,7 @@ prop(
     "C03",
     level="other",
     design_ref="DESIGN.md section 3, C03",
-    groups=[(["./plugin/input/file", "./pipeline"], r"^(\(\*Plugin\)\.PassEvent|\(\*jobProvider\)\.(commit|truncateJob|initJobOffset)|\(\*worker\)\.(processEOF|work))$")],
+    groups=[(["./plugin/input/file", "./pipeline"], r"^(\(\*Plugin\)\.PassEvent|\(\*jobProvider\)\.(commit|truncateJob|initJobOffset|addJob)|\(\*worker\)\.(processEOF|work))$")],
     claim=(
         "The sequential facts the kill-and-restart argument rests on, each a proved contract: on resume an event is dropped as already delivered only if its stream has a saved offset and the event's offset is not beyond it (PassEvent); "
         "commit stores the event's own offset, under the job lock, strictly larger than the stream's previous offset, and only for regular / split-parent events newer than the last truncation; "
